@@ -11,8 +11,8 @@ import (
 	"verif/engine/explore"
 	"verif/engine/vctx"
 	"verif/engine/vpipe"
-	"verif/engine/vtime"
 	"verif/engine/vs"
+	"verif/engine/vtime"
 	"verif/fw"
 	"verif/refws/frame"
 )
